@@ -34,20 +34,21 @@ type c12Case struct {
 }
 
 type c12Obs struct {
-	RefusedSent  int            `json:"refusedSent,omitempty"`
-	RefusedSeen  int            `json:"refusedSeen,omitempty"`
-	SendErr      []string       `json:"sendErr"` // per attempted envelope: "" = Send returned nil, "-" = not attempted
-	Recv         []interface{}  `json:"-"`
-	RecvIDs      []string       `json:"recvIds"`
-	RecvErr      string         `json:"recvErr,omitempty"`
-	RecvPanic    string         `json:"recvPanic,omitempty"`
-	Fired        map[string]int `json:"fired"`
-	Reads        int            `json:"reads"`
-	WireDiff     string         `json:"wireDiff,omitempty"`
-	Frames       int            `json:"frames"`
-	Disruptive   bool           `json:"disruptive"`
-	CutMid       bool           `json:"cutMid"`
-	RecvTimeouts int            `json:"recvTimeouts,omitempty"` // Receive calls that ended on their own context (and were followed by another one)
+	RefusedSent   int            `json:"refusedSent,omitempty"`
+	RefusedSeen   int            `json:"refusedSeen,omitempty"`
+	RefusedBroken bool           `json:"refusedBroken,omitempty"` // the harness could not write a refused relative completely: the stream is the harness's fault from there on
+	SendErr       []string       `json:"sendErr"`                 // per attempted envelope: "" = Send returned nil, "-" = not attempted
+	Recv          []interface{}  `json:"-"`
+	RecvIDs       []string       `json:"recvIds"`
+	RecvErr       string         `json:"recvErr,omitempty"`
+	RecvPanic     string         `json:"recvPanic,omitempty"`
+	Fired         map[string]int `json:"fired"`
+	Reads         int            `json:"reads"`
+	WireDiff      string         `json:"wireDiff,omitempty"`
+	Frames        int            `json:"frames"`
+	Disruptive    bool           `json:"disruptive"`
+	CutMid        bool           `json:"cutMid"`
+	RecvTimeouts  int            `json:"recvTimeouts,omitempty"` // Receive calls that ended on their own context (and were followed by another one)
 }
 
 func c12Stream(n int, pad int) []EnvSpec {
@@ -161,8 +162,20 @@ func runC12(c *c12Case) *c12Obs {
 			if !c.TLS && len(c.WritePlan) == 0 && i > 0 && containsInt(c.RefusedAt, i) && obs.SendErr[i-1] == "" {
 				if pb, err := json.Marshal(built[i-1]); err == nil && len(pb) > 2 {
 					refused := append(append([]byte{}, pb[:len(pb)-1]...), []byte(`,"id":7}`+"\n")...)
-					if _, err := cl.Write(refused); err == nil {
+					// the harness's own write: without the deadline the library's last write left on the connection, and complete
+					_ = cl.SetWriteDeadline(time.Time{})
+					ok := true
+					for off := 0; off < len(refused) && ok; {
+						n, err := cl.Write(refused[off:])
+						off += n
+						if err != nil {
+							ok = false
+						}
+					}
+					if ok {
 						obs.RefusedSent++
+					} else {
+						obs.RefusedBroken = true
 					}
 				}
 			}
@@ -319,6 +332,10 @@ func judgeC12(c *c12Case, obs *c12Obs, o *Outcome) {
 	o.NonTrivial = fc != "no-fault" || obs.Reads > obs.Frames+1
 	if strings.HasPrefix(obs.RecvErr, "harness:") {
 		o.Fail("C12/harness", "%s", obs.RecvErr)
+		return
+	}
+	if obs.RefusedBroken {
+		o.Class("harness-could-not-inject")
 		return
 	}
 	if obs.RecvPanic != "" {
